@@ -719,6 +719,8 @@ fn run_history(w: &mut Worker, plan: &Plan, zone: usize, hist: &[usize], only: O
 fn main() {
     let ctx = Ctx::from_args("C14", "fault_enumeration");
     let thorough = !ctx.quick();
+    // one work unit is a few hundred real exchanges; leave room for a heavily loaded machine
+    ctx.case_timeout_s.store(600, std::sync::atomic::Ordering::Relaxed);
     let zones = start_zones(true);
     let alpha = alphabet();
     let done = std::sync::Mutex::new(std::collections::HashSet::new());
